@@ -89,7 +89,7 @@ class Take(Filter[Iterable[Any], Sequence[Any]]):
     def filter(self, items: Iterable[Any]) -> Iterable[Any]:
         out = islice(items, self._count)
         if self._strict: out = list(out)
-        return [] if self._strict and len(out) < self._count else out
+        return [] if self._strict and self._count is not None and len(out) < self._count else out
 
     @property
     def params(self) -> Mapping[str, Any]:
